@@ -96,11 +96,6 @@ def parseOp (t : String) : Option Op :=
 def parseOps (t : String) : Option (List Op) :=
   if t = "-" then some [] else (t.splitOn ",").mapM parseOp
 
-inductive OOp where
-  | data (d : Bytes)
-  | hole (n : Nat)
-  | flush
-
 def parseOOp (t : String) : Option OOp :=
   if t = "f" then some .flush
   else if t.startsWith "h" then (t.drop 1).toString.toNat?.map OOp.hole
@@ -149,17 +144,6 @@ def showObs : Obs → String
 
 def showOstream (o : OStream) : String :=
   "out=" ++ dtok o.out ++ " size=" ++ toString o.size ++ " sparse=" ++ toString o.sparse
-
-def runOOps : Nat → OStream → List OOp → OS → (Err × Nat) × OStream × OS
-  | idx, o, [], os => ((.ok, idx), o, os)
-  | idx, o, op :: ops, os =>
-    let r := match op with
-      | .data d => fileAppend o (some d) d.length os
-      | .hole n => fileAppend o none n os
-      | .flush => fileFlush o os
-    match r with
-    | (.ok, o', os') => runOOps (idx + 1) o' ops os'
-    | (e, o', os') => ((e, idx), o', os')
 
 def step (line : String) : String :=
   match words line with
